@@ -180,6 +180,29 @@ type analysis struct {
 	forder  []*types.Var
 	calls   []callEdge
 	copies  []copySite
+	cfields  []cloneField
+	closures []nativeClosure
+}
+
+// a native function body (func literal taking an otto.FunctionCall) that refers to a variable of
+// its creator holding an *object, *runtime or *Otto: clone copies native function payloads as they
+// are, so in a copy the closure still works on the TEMPLATE's object/runtime
+type nativeClosure struct {
+	fn, file      string
+	line          int
+	name, vtyp    string
+	usage         string // strongest use inside the literal: read < escape < call < store
+}
+
+// how a copying function ((*runtime).clone, (*Otto).Copy, (*Otto).clone) fills one field of the
+// struct it returns: "cloned" (the value goes through the cloner or a clone method), "verbatim"
+// (the value is read from the receiver as it is), "fresh" (anything else: literals, locals, new
+// allocations) or "zero" (the field is not mentioned)
+type cloneField struct {
+	typ, field, ftyp string
+	ref              bool // the field holds a pointer, map, slice, channel or interface (not a func)
+	how, fn, file    string
+	line             int
 }
 
 // a stored copy of a struct value whose type carries references (`out := *o`,
@@ -244,6 +267,267 @@ func (a *analysis) mutators() map[string]bool {
 		}
 	}
 	return m
+}
+
+func (a *analysis) nativeClosures() {
+	p := a.l.pkgs[modPath]
+	rank := map[string]int{"read": 0, "escape": 1, "call": 2, "store": 3}
+	heapType := func(t types.Type) string {
+		pt, ok := t.(*types.Pointer)
+		if !ok {
+			return ""
+		}
+		n, ok := pt.Elem().(*types.Named)
+		if !ok || n.Obj().Pkg() != p.pkg {
+			return ""
+		}
+		switch n.Obj().Name() {
+		case "object", "runtime", "Otto", "scope", "objectStash", "dclStash", "fnStash":
+			return "*otto." + n.Obj().Name()
+		}
+		return ""
+	}
+	for _, f := range p.files {
+		for _, d := range f.Decls {
+			fd, ok := d.(*ast.FuncDecl)
+			var root ast.Node
+			name := ""
+			if ok && fd.Body != nil {
+				root, name = fd.Body, funcName(p.pkg, fd)
+			} else if gd, ok := d.(*ast.GenDecl); ok && gd.Tok == token.VAR {
+				root, name = gd, "otto.<decl>"
+			} else {
+				continue
+			}
+			ast.Inspect(root, func(n ast.Node) bool {
+				fl, ok := n.(*ast.FuncLit)
+				if !ok {
+					return true
+				}
+				sig, _ := p.info.Types[fl].Type.(*types.Signature)
+				native := false
+				if sig != nil {
+					for i := 0; i < sig.Params().Len(); i++ {
+						if nt, ok := sig.Params().At(i).Type().(*types.Named); ok && nt.Obj().Pkg() == p.pkg && nt.Obj().Name() == "FunctionCall" {
+							native = true
+						}
+					}
+				}
+				if !native {
+					return true
+				}
+				found := map[*types.Var]string{}
+				var order []*types.Var
+				var stack []ast.Node
+				ast.Inspect(fl.Body, func(c ast.Node) bool {
+					if c == nil {
+						stack = stack[:len(stack)-1]
+						return true
+					}
+					defer func() { stack = append(stack, c) }()
+					id, ok := c.(*ast.Ident)
+					if !ok {
+						return true
+					}
+					v, ok := p.info.Uses[id].(*types.Var)
+					if !ok || v.IsField() || v.Parent() == nil || v.Parent() == p.pkg.Scope() {
+						return true
+					}
+					if v.Pos() >= fl.Pos() && v.Pos() < fl.End() {
+						return true
+					}
+					if heapType(v.Type()) == "" {
+						return true
+					}
+					use := "escape"
+					if len(stack) > 0 {
+						if sel, ok := stack[len(stack)-1].(*ast.SelectorExpr); ok && sel.X == id {
+							if s, ok := p.info.Selections[sel]; ok {
+								if s.Kind() == types.FieldVal {
+									use = "read"
+									// a field of the captured object on the left of an assignment / ++ / &
+									for k := len(stack) - 1; k >= 0; k-- {
+										switch st := stack[k].(type) {
+										case *ast.AssignStmt:
+											for _, l := range st.Lhs {
+												if l.Pos() <= sel.Pos() && sel.End() <= l.End() {
+													use = "store"
+												}
+											}
+										case *ast.IncDecStmt:
+											use = "store"
+										case *ast.UnaryExpr:
+											if st.Op == token.AND {
+												use = "store"
+											}
+										}
+										if _, isStmt := stack[k].(ast.Stmt); isStmt {
+											break
+										}
+									}
+								} else {
+									use = "call"
+								}
+							}
+						}
+					}
+					if old, ok := found[v]; !ok {
+						found[v] = use
+						order = append(order, v)
+					} else if rank[use] > rank[old] {
+						found[v] = use
+					}
+					return true
+				})
+				pos := a.l.fset.Position(fl.Pos())
+				for _, v := range order {
+					a.closures = append(a.closures, nativeClosure{fn: name, file: a.relFile(pos.Filename), line: pos.Line,
+						name: v.Name(), vtyp: heapType(v.Type()), usage: found[v]})
+				}
+				return true
+			})
+		}
+	}
+}
+
+func refField(t types.Type) bool {
+	switch t.Underlying().(type) {
+	case *types.Pointer, *types.Map, *types.Slice, *types.Chan, *types.Interface:
+		return true
+	}
+	return false
+}
+
+// cloneFields: the composite literal (and the later `out.f = ...` stores) by which the copying
+// functions of the root package build a runtime / Otto value
+func (a *analysis) cloneFields() {
+	p := a.l.pkgs[modPath]
+	for _, f := range p.files {
+		for _, d := range f.Decls {
+			fd, ok := d.(*ast.FuncDecl)
+			if !ok || fd.Body == nil || fd.Recv == nil || len(fd.Recv.List) == 0 || len(fd.Recv.List[0].Names) == 0 {
+				continue
+			}
+			name := funcName(p.pkg, fd)
+			if name != "otto.(*runtime).clone" && name != "otto.(*Otto).Copy" && name != "otto.(*Otto).clone" {
+				continue
+			}
+			recvObj := p.info.Defs[fd.Recv.List[0].Names[0]]
+			classify := func(e ast.Expr) string {
+				cloned, fromRecv := false, false
+				ast.Inspect(e, func(n ast.Node) bool {
+					switch x := n.(type) {
+					case *ast.CallExpr:
+						if sel, ok := x.Fun.(*ast.SelectorExpr); ok {
+							if s, ok := p.info.Selections[sel]; ok && s.Kind() == types.MethodVal {
+								rt := types.TypeString(s.Recv(), qual)
+								if strings.Contains(rt, "cloner") || sel.Sel.Name == "clone" || sel.Sel.Name == "Copy" {
+									cloned = true
+								}
+							}
+						}
+					case *ast.Ident:
+						if p.info.Uses[x] == recvObj && recvObj != nil {
+							fromRecv = true
+						}
+					}
+					return true
+				})
+				switch {
+				case cloned:
+					return "cloned"
+				case fromRecv:
+					return "verbatim"
+				}
+				return "fresh"
+			}
+			seen := map[string]map[string]bool{}
+			record := func(st *types.Named, field string, val ast.Expr, at ast.Node) {
+				str, ok := st.Underlying().(*types.Struct)
+				if !ok {
+					return
+				}
+				tn := short(st.Obj().Pkg()) + "." + st.Obj().Name()
+				for i := 0; i < str.NumFields(); i++ {
+					fv := str.Field(i)
+					if fv.Name() != field {
+						continue
+					}
+					pos := a.l.fset.Position(at.Pos())
+					if seen[tn] == nil {
+						seen[tn] = map[string]bool{}
+					}
+					seen[tn][field] = true
+					a.cfields = append(a.cfields, cloneField{typ: tn, field: field, ftyp: typeStr(fv.Type()), ref: refField(fv.Type()),
+						how: classify(val), fn: name, file: a.relFile(pos.Filename), line: pos.Line})
+				}
+			}
+			var built []*types.Named
+			ast.Inspect(fd.Body, func(n ast.Node) bool {
+				switch x := n.(type) {
+				case *ast.CompositeLit:
+					tv, ok := p.info.Types[x]
+					if !ok {
+						return true
+					}
+					nt, ok := tv.Type.(*types.Named)
+					if !ok || nt.Obj().Pkg() != p.pkg || (nt.Obj().Name() != "runtime" && nt.Obj().Name() != "Otto") {
+						return true
+					}
+					built = append(built, nt)
+					for _, el := range x.Elts {
+						if kv, ok := el.(*ast.KeyValueExpr); ok {
+							if k, ok := kv.Key.(*ast.Ident); ok {
+								record(nt, k.Name, kv.Value, kv)
+							}
+						}
+					}
+				case *ast.AssignStmt:
+					for i, lhs := range x.Lhs {
+						sel, ok := lhs.(*ast.SelectorExpr)
+						if !ok || i >= len(x.Rhs) && len(x.Rhs) != 1 {
+							continue
+						}
+						s, ok := p.info.Selections[sel]
+						if !ok || s.Kind() != types.FieldVal {
+							continue
+						}
+						rt := s.Recv()
+						if pt, ok := rt.(*types.Pointer); ok {
+							rt = pt.Elem()
+						}
+						nt, ok := rt.(*types.Named)
+						if !ok || nt.Obj().Pkg() != p.pkg || (nt.Obj().Name() != "runtime" && nt.Obj().Name() != "Otto") {
+							continue
+						}
+						// stores into the receiver itself are not part of building the copy
+						if id, ok := sel.X.(*ast.Ident); ok && p.info.Uses[id] == recvObj {
+							continue
+						}
+						rhs := x.Rhs[0]
+						if i < len(x.Rhs) {
+							rhs = x.Rhs[i]
+						}
+						record(nt, sel.Sel.Name, rhs, x)
+					}
+				}
+				return true
+			})
+			for _, nt := range built {
+				str := nt.Underlying().(*types.Struct)
+				tn := short(nt.Obj().Pkg()) + "." + nt.Obj().Name()
+				pos := a.l.fset.Position(fd.Pos())
+				for i := 0; i < str.NumFields(); i++ {
+					fv := str.Field(i)
+					if seen[tn][fv.Name()] {
+						continue
+					}
+					a.cfields = append(a.cfields, cloneField{typ: tn, field: fv.Name(), ftyp: typeStr(fv.Type()), ref: refField(fv.Type()),
+						how: "zero", fn: name, file: a.relFile(pos.Filename), line: pos.Line})
+				}
+			}
+		}
+	}
 }
 
 func (a *analysis) callEdges() {
@@ -1170,6 +1454,22 @@ func (a *analysis) emit(out string) error {
 		fmt.Fprintf(&b, "\n  mkCall %s %s %s %d %s", coqStr(c.callee), coqStr(c.caller), coqStr(c.file), c.line, coqBool(c.init))
 	}
 	b.WriteString("\n].\n\n")
+	b.WriteString("Definition native_closures : list native_closure := [")
+	for i, c := range a.closures {
+		if i > 0 {
+			b.WriteString(";")
+		}
+		fmt.Fprintf(&b, "\n  mkClosure %s %s %d %s %s %s", coqStr(c.fn), coqStr(c.file), c.line, coqStr(c.name), coqStr(c.vtyp), coqStr(c.usage))
+	}
+	b.WriteString("\n].\n\n")
+	b.WriteString("Definition clone_fields : list clone_field := [")
+	for i, c := range a.cfields {
+		if i > 0 {
+			b.WriteString(";")
+		}
+		fmt.Fprintf(&b, "\n  mkCloneField %s %s %s %s %s %s %s %d", coqStr(c.typ), coqStr(c.field), coqStr(c.ftyp), coqBool(c.ref), coqStr(c.how), coqStr(c.fn), coqStr(c.file), c.line)
+	}
+	b.WriteString("\n].\n\n")
 	b.WriteString("Definition struct_copies : list copy_site := [")
 	for i, c := range a.copies {
 		if i > 0 {
@@ -1203,7 +1503,7 @@ func diagnose(verif, run string) int {
 		return 1
 	}
 	src := "From Coq Require Import String List.\nFrom Otto Require Import C20.Facts C20.Audit C20.Shared.\n" +
-		"Definition F := Eval vm_compute in (failing_report pkg_vars struct_fields call_edges struct_copies).\nPrint F.\n"
+		"Definition F := Eval vm_compute in (failing_report pkg_vars struct_fields call_edges struct_copies clone_fields native_closures).\nPrint F.\n"
 	f := filepath.Join(dir, "Diag.v")
 	if err := os.WriteFile(f, []byte(src), 0o644); err != nil {
 		fmt.Println("diagnose:", err)
@@ -1273,6 +1573,8 @@ func main() {
 	a.collect()
 	a.run()
 	a.callEdges()
+	a.cloneFields()
+	a.nativeClosures()
 	if *verbose {
 		for _, w := range l.warn {
 			fmt.Fprintln(os.Stderr, "warning:", w)
